@@ -31,6 +31,10 @@ type Doc struct {
 	ID   ID     `json:"id"`
 	Body []byte `json:"body"`
 	Toks []Tok  `json:"toks"`
+	// Nested: token lists of nested entries (zero-size metas that share the parent's ID
+	// and position, directly after the parent) as the proxy emits them for `nested` fields.
+	// The model's search ignores them; only checks that say so generate them.
+	Nested [][]Tok `json:"nested,omitempty"`
 }
 
 // ---------------------------------------------------------------- queries
